@@ -23,7 +23,7 @@ CLASSES = ['AddEnclosingMiddleware', 'LatexDecodingMiddleware', 'LatexEncodingMi
            'MonthAbbreviationMiddleware', 'MonthIntMiddleware', 'MonthLongStringMiddleware', 'NormalizeFieldKeys', 'RemoveEnclosingMiddleware',
            'ResolveStringReferencesMiddleware', 'SeparateCoAuthors', 'SortBlocksByTypeAndKeyMiddleware', 'SortFieldsAlphabeticallyMiddleware',
            'SortFieldsCustomMiddleware', 'SplitNameParts']
-MIN = {"write_string_monitor": (3000, 60000), "error_block_libraries": (300, 6000), "whole_stack_monitor": (500, 20000)}
+MIN = {"write_string_monitor": (3000, 60000), "error_block_libraries": (300, 6000), "whole_stack_monitor": (500, 20000), "repeat_after_tamper": (300, 10000)}
 MIN.update({"transform_copy:" + c: (100, 2000) for c in CLASSES})
 
 OPTS = {
@@ -233,6 +233,25 @@ def check(case, ctx):
             break
         changing = changing or name in VALUE_CHANGING
         steps_done += 1
+    if not out and steps_done == 1 and len(case["stack"]) == 1 and ctx.cases % 3 == 0:
+        # state carried between calls: tamper with the result, repeat the call (same instance class, same input)
+        from ..monitors.fingerprint import tamper
+        ctx.mon("repeat_after_tamper")
+        snap = fp(cur)
+        tamper(cur)
+        try:
+            again = make(case["stack"][0]).transform(lib)
+            if fp(again) != snap:
+                out.append(Violation("state-between-calls", f"C07:repeat-after-tamper:{case['stack'][0][0]}",
+                                     dict(stack=case["stack"], text=case["text"], pre=case["pre"])))
+            elif fp(lib) != lib_fp_before:
+                out.append(Violation("input-mutated", "C07:tampering-with-result-changed-input", dict(stack=case["stack"], text=case["text"])))
+        except contracts.PostBroken as ex:
+            out.append(Violation("aliasing", f"C07:repeat-after-tamper:contract:{case['stack'][0][0]}", dict(why=str(ex), stack=case["stack"], text=case["text"])))
+        except BaseException as ex:  # noqa
+            if isinstance(ex, (KeyboardInterrupt, SystemExit)):
+                raise
+            out.append(Violation("transform-raised", f"C07:repeat-after-tamper:raised:{case['stack'][0][0]}:{type(ex).__name__}", dict(error=srepr(ex), stack=case["stack"], text=case["text"])))
     if not out and steps_done >= 2 and steps_done == len(case["stack"]):
         # every element of the stack is in copy mode: the stack as a whole is a copy-mode program
         ctx.mon("whole_stack_monitor")
